@@ -54,7 +54,7 @@ RefLexResult reflex(const std::string& s, bool keep_newlines) {
         R.spans.push_back({p, p + 2, c == '"' ? "quote_quote" : (s[p + 1] == '"' ? "backslash_quote" : "backslash_backslash")});
         sbuf.append(s, p, 2); p += 2; bol = false; continue;
       }
-      if (c == '"') { sbuf.push_back('"'); ++p; st = INITIAL; bol = false; R.tokens.push_back({RT_LITERALSTR, sbuf}); (void)sbeg; continue; }
+      if (c == '"') { sbuf.push_back('"'); ++p; st = INITIAL; bol = false; R.tokens.push_back({RT_LITERALSTR, sbuf, sbeg, p}); continue; }
       sbuf.push_back((char)c); bol = (c == '\n'); ++p; continue;
     }
     // INITIAL: collect candidates (length, priority = rule order; lower wins ties)
@@ -98,9 +98,9 @@ RefLexResult reflex(const std::string& s, bool keep_newlines) {
     case -2: st = LITERAL; sbuf = text; sbeg = p; break;
     case -3: case -4: case -9: break;
     default:
-      if (code == '\n') { if (keep_newlines) R.tokens.push_back({'\n', "\n"}); }
+      if (code == '\n') { if (keep_newlines) R.tokens.push_back({'\n', "\n", p, p + 1}); }
       else if (code == 0) { /* NUL byte: rule has no return */ }
-      else R.tokens.push_back({code, text});
+      else R.tokens.push_back({code, text, p, p + best});
     }
     bol = (s[p + best - 1] == '\n');
     p += best;
